@@ -253,9 +253,13 @@ pub extern "C" fn shv_m_write(fd: c_int, _buf: *const c_void, len: usize) -> isi
 }
 // number of further recv calls that may still return data (models a finite amount buffered)
 pub static mut RECV_BUDGET: usize = 0;
+pub static mut ON_RECV: Option<fn()> = None;
 #[no_mangle]
 pub extern "C" fn shv_m_recv(fd: c_int, _buf: *mut c_void, len: usize, flags: c_int) -> isize {
     unsafe {
+        if let Some(f) = ON_RECV {
+            f();
+        }
         if RECV_BUDGET == 0 {
             // nothing (more) buffered. Returned as the CONSTANT 0 so that the model checker sees a
             // drain loop terminate without the solver (callers here only test `> 0`; a -1/EAGAIN
